@@ -1271,18 +1271,41 @@ def _worker_base(name, scratch):
     return _W[name]
 
 
+class PairCollision(Exception):
+    pass
+
+
 def _eval(task):
     """Worker: build one mutant and load it through the real front end."""
     base, ops, base_texts = _worker_base(task['base'], task['scratch'])
     if 'pair' in task:
         o1, o2 = ops[task['pair'][0]], ops[task['pair'][1]]
 
+        def _alias_maps(x, acc):
+            if isinstance(x, dict):
+                for k, v in x.items():
+                    if k in ('$field-type-aliases', 'type-aliases') and isinstance(v, dict):
+                        acc.append(v)
+                    _alias_maps(v, acc)
+            elif isinstance(x, list):
+                for v in x:
+                    _alias_maps(v, acc)
+            return acc
+
         def both(doc):
             o1.fn(doc)
+            before = copy.deepcopy(_alias_maps(doc, []))
             try:
                 o2.fn(doc)
             except Exception:
                 pass
+            # the second fault must not redefine an alias the first one relies on (both use the helper name
+            # zz_variant): the document would then carry the second fault only
+            after = _alias_maps(doc, [])
+            for b, a in zip(before, after):
+                for k, v in b.items():
+                    if a.get(k) != v:
+                        raise PairCollision(k)
         op = Op('pair', '', both, o1.pos, o1.certain or o2.certain)
     else:
         op = ops[task['op']]
@@ -1550,7 +1573,7 @@ def run(ctx):
         'samples': samples,
         'wall_s': round(time.time() - t0, 1),
     })
-    real_skips = [x for x in skipped if not x.endswith('no-op')]
+    real_skips = [x for x in skipped if not x.endswith('no-op') and 'PairCollision' not in x]
     if real_skips:
         ctx.notes.append('C09 oracle: %d operator applications raised (harness bug), e.g. %s' % (len(real_skips), real_skips[0]))
     if notes_dup:
